@@ -1219,6 +1219,9 @@ func run(c *lib.Ctx) {
 
 		res := c.Child("serve", childIn{Spec: spec, Reqs: reqs}, lib.ChildOpts{Timeout: 4 * time.Minute})
 		c.Count("child_wall_ms", res.WallMs)
+		if os.Getenv("VERIF_DEBUG") != "" {
+			fmt.Fprintf(os.Stderr, "cfg %d child %dms: %s\n", i, res.WallMs, tail(res.Stderr, 300))
+		}
 		if res.TimedOut {
 			c.Inconclusive("configuration %d: child timed out", i)
 			return
